@@ -35,6 +35,15 @@ func genC08(tier string, r *rng, emit func(string)) {
 				emit(fmt.Sprintf("prog f64 new:rm:%s:1;reduce:%s:0:%s", fints(sh), kind, fints(rev)))
 			}
 		}
+		// the generic Reduce(fn, axis, default) entry point: every axis (its own middle-axis
+		// bookkeeping), contiguous, lazily transposed and column-major operands
+		for ax := 0; ax < n; ax++ {
+			emit(fmt.Sprintf("prog %s new:rm:%s:1;reducefn:sum:0:%d", []string{"i", "f64", "i32"}[ax%3], fints(sh), ax))
+			if n >= 2 && r.intn(3) == 0 {
+				emit(fmt.Sprintf("prog f64 new:rm:%s:1;T:0:_;reducefn:sum:0:%d", fints(sh), ax))
+				emit(fmt.Sprintf("prog f64 new:cm:%s:1;reducefn:sum:0:%d", fints(sh), ax))
+			}
+		}
 		for ax := -1; ax <= n; ax++ {
 			emit(fmt.Sprintf("prog i new:rm:%s:1;arg:max:0:%d", fints(sh), ax))
 			if r.intn(2) == 0 {
